@@ -93,6 +93,7 @@ class _Normalizer:
                 self._each_function(m, self._inline_in_function)
                 if self.stats['inlined_calls'] == before:
                     break
+            self._each_function(m, self._augment_function)
             self._each_function(m, self._desugar_function)
             self._each_function(m, self._fold_function)
 
@@ -169,6 +170,22 @@ class _Normalizer:
             T().visit(fnode)
         finally:
             fnode.args = saved
+
+    # ------------------------------------------------------------------ 1b. x = x + e  ->  x += e
+    def _augment_function(self, fnode, cls, local):
+        for n in ast.walk(fnode):
+            for fld in ('body', 'orelse', 'finalbody'):
+                body = getattr(n, fld, None)
+                if not (isinstance(body, list) and body and isinstance(body[0], ast.stmt)):
+                    continue
+                for i, st in enumerate(body):
+                    if isinstance(st, ast.Assign) and len(st.targets) == 1 and isinstance(st.targets[0], ast.Name) \
+                            and isinstance(st.value, ast.BinOp) and isinstance(st.value.op, (ast.Add, ast.Sub, ast.Mult)) \
+                            and isinstance(st.value.left, ast.Name) and st.value.left.id == st.targets[0].id:
+                        aug = ast.AugAssign(target=ast.Name(id=st.targets[0].id, ctx=ast.Store()), op=st.value.op, value=st.value.right)
+                        ast.copy_location(aug, st)
+                        ast.fix_missing_locations(aug)
+                        body[i] = aug
 
     # ------------------------------------------------------------------ 2. conditional expressions
     def _desugar_function(self, fnode, cls, local):
